@@ -55,13 +55,18 @@ StoreTipH == rows[Tip].height
 StoreCurrent == (Cps = {} \/ StoreTipH >= LastCpH) /\ Tip # 0
 MgrCurrent   == StoreCurrent /\ (syncPeer = 0 \/ StoreTipH >= pk[syncPeer].last)
 
+\* p2psync.New: the checkpoint cursor and the headers-first flag are derived from the height of the stored tip
+NewCp(h) == IF CpEnabled THEN FindNextCp(h) ELSE 0
+NewHf(h) == (CpEnabled /\ FindNextCp(h) = 0) \/ (~CpEnabled /\ "DisabledCheckpointsRejectHeaders" \notin Findings)
+NoPeer   == [known |-> FALSE, cand |-> FALSE, last |-> 0, prevB |-> -1, prevS |-> -2]
+
 SyInit ==
   /\ Init
   /\ nd = [p \in Peers |-> [conn |-> FALSE, best |-> 0, version |-> 0]]
-  /\ pk = [p \in Peers |-> [known |-> FALSE, cand |-> FALSE, last |-> 0, prevB |-> -1, prevS |-> -2]]
+  /\ pk = [p \in Peers |-> NoPeer]
   /\ syncPeer = 0
-  /\ nextCp = IF CpEnabled THEN FindNextCp(0) ELSE 0
-  /\ hf = ((CpEnabled /\ FindNextCp(0) = 0) \/ (~CpEnabled /\ "DisabledCheckpointsRejectHeaders" \notin Findings))
+  /\ nextCp = NewCp(0)
+  /\ hf = NewHf(0)
   /\ mq = <<>> /\ nq = [p \in Peers |-> <<>>] /\ ban = {} /\ lastSent = <<>>
 
 -----------------------------------------------------------------------------
@@ -168,6 +173,15 @@ NodeClose(p) ==
   /\ lastSent' = <<>>
   /\ UNCHANGED <<cvars, pk, syncPeer, hf, nextCp, ban>>
 
+\* the process is stopped and started again on the same database: every connection goes down, the manager, the peer
+\* objects and the server's ban list are rebuilt from nothing but the store (p2psync.New, newServer)
+RestartSrv ==
+  /\ nd' = [p \in Peers |-> [nd[p] EXCEPT !.conn = FALSE]]
+  /\ pk' = [p \in Peers |-> NoPeer]
+  /\ syncPeer' = 0 /\ nextCp' = NewCp(StoreTipH) /\ hf' = NewHf(StoreTipH)
+  /\ mq' = <<>> /\ nq' = [p \in Peers |-> <<>>] /\ ban' = {} /\ lastSent' = <<>>
+  /\ UNCHANGED cvars
+
 -----------------------------------------------------------------------------
 (* manager handlers (one atomic step each) *)
 
@@ -258,6 +272,7 @@ MgrStep ==
 EnvStep == \/ \E p \in Peers, b \in Blocks \cup {0} : Connect(p, b) \/ ConnectBanned(p, b)
            \/ \E p \in Peers : NodeReply(p) \/ NodeClose(p)
            \/ \E p \in Peers, b \in Blocks, how \in {"inv", "headers"} : NodeAnnounce(p, b, how)
+           \/ RestartSrv
 
 SyNext == MgrStep \/ (mq = <<>> /\ EnvStep)
 \* fairness: the manager handles what it receives; connected nodes answer what they were asked (assumption E2)
